@@ -62,18 +62,37 @@ def be16(out, i):
     return z3.Concat(out[i].t, out[i + 1].t)
 
 
-def size_obligation(prog, enums, structs, shape, with_edns, sym_flags=False):
-    fn = find(prog, "serialise_with_size", 2, "dnspkt")
+def size_obligation(prog, enums, structs, shape, with_edns, sym_flags=False, via=None):
+    """via=None: serialise_with_size(size) for a symbolic size.  via='udp'/'tcp': the octets the transport sends, computed by the
+    expression lifted from run_udp / run_tcp from (reply, query); the limit the claims use is then the PROPERTY's:
+    max(512, advertised payload size) for UDP, 65535 for TCP."""
+    if via is None:
+        fn = find(prog, "serialise_with_size", 2, "dnspkt")
+    else:
+        fns = [f for f in prog.find(f"lifted_{via}_reply_bytes", 2)]
+        if len(fns) != 1:
+            raise Unsupported(f"lifted_{via}_reply_bytes not found in the MIR dump")
+        fn = fns[0]
     ex = Exec(prog, S, enums, max_unroll=16)
     qlabels = (3,)
 
     def run(e):
         pkt = mk_msg(e, structs, shape, with_edns, qlabels, sym_flags)
-        size = z3.BitVec("size", 64)
-        e.assume(z3.And(z3.UGE(size, 512), z3.ULE(size, 65535)))
-        e.env["size"] = size
         e.env["pkt"] = pkt
-        return e.call_fn(fn, [Ref(Cell(pkt)), BV(size)])
+        if via is None:
+            size = z3.BitVec("size", 64)
+            e.assume(z3.And(z3.UGE(size, 512), z3.ULE(size, 65535)))
+            e.env["size"] = size
+            return e.call_fn(fn, [Ref(Cell(pkt)), BV(size)])
+        adv = z3.BitVec("advertised", 16)
+        e.env["adv"] = adv
+        e.env["size"] = z3.If(z3.ULT(adv, 512), z3.BitVecVal(512, 64), z3.ZeroExt(48, adv)) if via == "udp" else z3.BitVecVal(65535, 64)
+        dn = [f for f in structs["DNSPkt"]][0]
+        qv = {n: Opaque("unused") for n in dn}
+        qv["bufsize"] = BV(adv)
+        query = Adt("DNSPkt", None, [qv[n] for n in dn], list(dn))
+        msg = build(structs, "DnsMessage", in_query=query, in_size=BV(z3.BitVec("in_size", 64)), local_ip=Opaque("unused"), remote_addr=Opaque("unused"), protocol=Opaque("unused"))
+        return e.call_fn(fn, [Ref(Cell(pkt)), Ref(Cell(msg))])
     paths = ex.explore(run)
     base = 12 + sum(n + 1 for n in qlabels) + 1 + 4
     recs = [(0, 1 + 10 + L) for L in shape[0]] + [(1, 1 + 10 + L) for L in shape[1]] + [(2, 1 + 10 + L) for L in shape[2]]
@@ -119,8 +138,9 @@ def size_obligation(prog, enums, structs, shape, with_edns, sym_flags=False):
         for name, f in claims:
             m = check(ex, pc, f, name)
             if m is not None:
-                failed.append(dict(check="", description=name, location="dns/dnspkt.rs serialise_with_size", kind="violation",
-                                   counterexample=dict(shape=[list(x) for x in shape], with_edns=with_edns, size=m.eval(size, model_completion=True).as_long(),
+                failed.append(dict(check="", description=name, location="dns/dnspkt.rs serialise_with_size" + ("" if via is None else f" via dns/mod.rs run_{via}"), kind="violation",
+                                   counterexample=dict(shape=[list(x) for x in shape], with_edns=with_edns, size=m.eval(size, model_completion=True).as_long(), transport=via,
+                                                       advertised=(m.eval(env["adv"], model_completion=True).as_long() if "adv" in env else None),
                                                        output_len=(len(val.items) if outcome != "panic" else None), full_size=base + prefix[-1])))
     return failed, ex, len(paths), kinds
 
